@@ -516,6 +516,9 @@ off64_t _GD_LzmaSize(int dirfd, struct gd_raw_file_ *file, gd_type_t data_type,
   /* read until EOF */
   while (!LZEOF(*lzd)) {
     if (_GD_LzmaReady(lzd, GD_LZMA_DATA_OUT, size, &file->error) < 0) {
+      lzma_end(&lzd->xz);
+      fclose(lzd->stream);
+      free(lzd);
       dreturn("%i", -1);
       return -1;
     }
